@@ -267,6 +267,9 @@ pub fn run(run: &mut Run) {
     run.prop(&OtherKinds, (any::<usize>(), any::<bool>(), proptest::collection::vec(any::<u8>(), 0..200)), n);
     let n = run.budget(20_000, 1_000_000);
     run.prop(&GateSessions, session_strategy(10, 1, 6, true, None), n);
+    // long histories: the gate after hundreds of packets and many version packets
+    let n = run.budget(400, 20_000);
+    run.prop(&GateSessions, session_strategy(400, 1, 6, true, None), n);
     // histories in which the application also sends: handshake() with an ISI of any version, write() of version requests / ISIs
     let app_op = prop_oneof![
         3 => prop_oneof![Just(9u8), 0u8..12, any::<u8>()].prop_map(AppOp::Handshake),
